@@ -838,6 +838,10 @@ def session_correspondence(ctx, n_sessions: int, max_periods: int, pid: str, res
             continue
         cases.append(case); traces.append(tr)
     ctx.log(f"correspondence: {len(cases)} sessions run on the implementation, {_time.time() - t0:.0f}s")
+    if len(cases) < max(1, n_sessions // 2):
+        # fail closed: a run that cannot execute its sessions proves nothing
+        res.disagreements.append(Disagreement(f"only {len(cases)} of {n_sessions} requested sessions could be run", None, None,
+                                              {"raised": raised, "tries": tries}))
     nsh = max(1, min(core.NCPU, len(cases) // 8 or 1))
     shards = [list(range(i, len(cases), nsh)) for i in range(nsh)]
     texts = [SESSION_HEADER + "".join(coq_session(k, cases[i]) for k, i in enumerate(idxs)) for idxs in shards]
